@@ -14,7 +14,10 @@ pub fn isa_pool() -> &'static [&'static str] {
         let base = "rv64imafdch_zicsr_zifencei_zba_zbb_zbc_zbs_sstc_svinval_svnapot_svpbmt_zicbom_zicbop_zicboz_";
         // strings whose byte length differs from their character count (multi-byte UTF-8)
         // … and strings that already carry a terminator (both parities of the byte length)
-        for s in ["rv64\u{e9}", "\u{b5}", "rv64imafdc_\u{4e2d}\u{6587}", "\u{1f600}x", "ab\u{e9}cd\u{e9}", "rv64imafd\0", "rv64imafdc\0", "\0"] {
+        for s in ["rv64\u{e9}", "\u{b5}", "rv64imafdc_\u{4e2d}\u{6587}", "\u{1f600}x", "ab\u{e9}cd\u{e9}", "rv64imafd\0", "rv64imafdc\0", "\0",
+            // letters of both cases, and characters whose other-case form has a different UTF-8 length
+            // (U+0130, Kelvin, Ohm, Angstrom, sharp s): any case folding on the way out changes bytes or sizes
+            "RV64IMAFDCH_Zicsr_Zifencei_Zba_Zbb", "Rv32\u{130}mac", "rv64\u{212a}_z\u{2126}\u{212b}", "\u{df}rv64\u{df}", "RV64GC"] {
             v.push(Box::leak(s.to_string().into_boxed_str()));
         }
         for n in [0usize, 1, 2, 3, 4, 5, 10, 11, 62, 63, 64, 117, 118, 245, 246, 247, 248, 249, 300, 301, 1000, 1001] {
@@ -275,7 +278,7 @@ pub fn gen_op(kind: Kind, r: &mut Rng, st: &mut GenState) -> Option<Op> {
             _ => {
                 if st.isas == 0 {
                     st.isas += 1;
-                    Op::Isa { s: isa_pool()[r.usize_below(10)] }
+                    Op::Isa { s: isa_pool()[r.usize_below(13)] }
                 } else {
                     let nc = if st.cmos == 0 { 0 } else { small_or_big(r, 3, &[59, 60, 61, 62]) };
                     Op::HartInfo { uid: r.u32b(), isa: r.usize_below(st.isas), cmos: (0..nc).map(|_| r.usize_below(st.cmos)).collect() }
@@ -307,8 +310,11 @@ pub fn gen_op(kind: Kind, r: &mut Rng, st: &mut GenState) -> Option<Op> {
             }
             _ => {
                 let nl = small_or_big(r, 12, &[242, 243, 244, 245]);
-                let mut name: String = (0..nl).map(|_| (b'A' + r.below(26) as u8) as char).collect();
-                match r.below(24) {
+                let lower = r.chance(1, 3);
+                let mut name: String = (0..nl).map(|_| ((if lower && r.bool() { b'a' } else { b'A' }) + r.below(26) as u8) as char).collect();
+                match r.below(26) {
+                    24 => name.push('\u{130}'),   // case folding changes the byte length
+                    25 => name.insert(0, '\u{212a}'),
                     0 => name.push('\u{e9}'),     // multi-byte character: byte length != character count
                     1 => name.insert(0, '\u{4e2d}'),
                     2 => name.push('\0'),          // caller-supplied terminator
@@ -616,5 +622,29 @@ pub fn sweep_entry_size(kind: Kind) -> usize {
         Kind::Rqsc => 28,
         Kind::Sdt => 6,
         _ => 0,
+    }
+}
+
+pub fn gen_error_data(r: &mut Rng) -> ErrDataArg {
+    let mut section_type = [0u8; 16];
+    let mut fru_id = [0u8; 16];
+    let mut fru_text = [0u8; 20];
+    let mut timestamp = [0u8; 8];
+    for b in section_type.iter_mut().chain(fru_id.iter_mut()).chain(fru_text.iter_mut()).chain(timestamp.iter_mut()) {
+        *b = r.u8b();
+    }
+    // make sure the section type is not confined to its first two bytes
+    section_type[2 + r.usize_below(14)] |= 1 << r.below(8);
+    ErrDataArg {
+        section_type,
+        severity: r.below(4) as u8,
+        revision: r.u16b(),
+        validation: r.u8b(),
+        flags: r.u8b(),
+        error_data_length: r.u32b(),
+        fru_id,
+        fru_text,
+        timestamp,
+        data: (0..r.below(4)).map(|_| gen_gas(r)).collect(),
     }
 }
